@@ -178,9 +178,13 @@ func reproduced(v *violation, nr *nativeRun) bool {
 	case "deadlock":
 		return nr.TimedOut || strings.Contains(nr.Raw, "all goroutines are asleep") || strings.Contains(nr.Raw, "test timed out")
 	}
-	head := labelHead(v.Label)
 	for _, f := range nr.Failed {
-		if f == v.Label || labelHead(f) == head {
+		if f == v.Label {
+			return true
+		}
+		// NoPanic labels are "<base>:<sanitised panic message>": the message may render
+		// symbolic values differently, so compare the base only
+		if i := strings.Index(v.Label, "-panics:"); i >= 0 && strings.HasPrefix(f, v.Label[:i+8]) {
 			return true
 		}
 	}
